@@ -84,6 +84,22 @@ def space(tier):
             for op in BINOPS:
                 out.append(P(R64, "r = %s %s %s;" % (x, op, y), ["r"], tag=("fold", x, op, y)))
             out.append(P([("int32_t", "a", "input")] + R64, "r = (%s < %s) ? a : (a + 1);" % (x, y), ["r"], tag=("fold-cond", x, y)))
+    # folds of folds: a folded unary / binary result as an operand of another fold
+    S2 = [t for t in S if t in ("0", "1", "0U", "1U", "4294967295U", "0xffffffff", "2147483647", "4294967295", "0LL", "18446744073709551615U", "0xffffffffffffffff")] or S[:6]
+    if tier == "thorough":
+        S2 = S[::2]
+    for x in S2:
+        for y in S2:
+            for u in ("~", "-"):
+                for op in ("<", ">", "==", "!=", "+", "*"):
+                    out.append(P(R64, "r = %s%s %s %s;" % (u, x, op, y), ["r"], tag=("fold2-un", u, x, op, y)))
+                    out.append(P(R64, "r = %s %s %s%s;" % (y, op, u, x), ["r"], tag=("fold2-un-r", u, x, op, y)))
+            for z in S2[:: (1 if tier == "thorough" else 2)]:
+                for o1 in ("+", "-", "*"):
+                    for o2 in ("<", "==", ">=", "+"):
+                        out.append(P(R64, "r = (%s %s %s) %s %s;" % (x, o1, y, o2, z), ["r"], tag=("fold2-bin", x, o1, y, o2, z)))
+            out.append(P([("int32_t", "a", "input")] + R64, "r = (~%s > %s) ? a : (a + 1);" % (x, y), ["r"], tag=("fold2-cond", x, y)))
+            out.append(P([("int32_t", "a", "input")] + R64, "r = ((%s + %s) == 0U) ? a : (a + 1);" % (x, y), ["r"], tag=("fold2-cond2", x, y)))
     # metamorphic partners of the folded pairs: same expression over typed variables
     for x in S[:: (1 if tier == "thorough" else 3)]:
         for y in S[:: (1 if tier == "thorough" else 3)]:
